@@ -31,11 +31,11 @@ class Result:
     def add_broken(self, what, name, detail=None):
         self.broken.append({'what': what, 'name': name, 'detail': detail})
 
-def run_step_profiles(res, spec, tier, seed, coq=True):
+def run_step_profiles(res, spec, tier, seed, coq=True, use_cache=True):
     import stepmodel
     runs = spec.get('step_runs', {}).get(tier) or spec.get('step_runs', {}).get('quick') or []
     for (profile, n_cases, n_ops) in runs:
-        r = stepmodel.run(seed, n_cases, n_ops, profile, coq=coq)
+        r = stepmodel.run(seed, n_cases, n_ops, profile, coq=coq, use_cache=use_cache)
         res.cov['evaluations'] += r['cases']
         res.cov['distinct_nontrivial'] += r['distinct_nontrivial']
         res.cov['samples'] += r['samples'][:2]
@@ -140,14 +140,24 @@ def decide(prop, tier, seed):
                     'checker_cmd': f'cd /verif/coq && make -k && coqc Props/{os.path.basename(props_file)} (Coq 8.16.1; Print Assumptions closed)',
                     'trusted_base': spec.get('trusted_base', []) + COMMON_TRUSTED})
     res.notes['coq'] = {'files': deps, 'theorems': [n for n in names if n.startswith('Props/')], 'build_s': round(b['wall_s'], 1)}
-    # ---- (B2) correspondence + (C) monitors
-    if spec.get('step_runs'):
-        run_step_profiles(res, spec, tier, seed)
-    for fn in spec.get('engines', []):
-        try:
-            fn(res, spec, tier, seed)
-        except Exception as ex:
-            res.add_broken('harness', f'{fn.__module__}.{fn.__name__} raised {type(ex).__name__}', traceback.format_exc()[-2500:])
+    # ---- (B2) correspondence + (C) monitors, under diff-coverage (DESIGN §3.3)
+    import diffcov
+    anch = diffcov.anchors()
+    changed = {k: v for k, v in diffcov.changed_functions().items() if prop in anch.get(k[0], [])}
+    with diffcov.Tracer(changed) as tracer:
+        if spec.get('step_runs'):
+            run_step_profiles(res, spec, tier, seed, use_cache=not changed)
+        for fn in spec.get('engines', []):
+            try:
+                fn(res, spec, tier, seed)
+            except Exception as ex:
+                res.add_broken('harness', f'{fn.__module__}.{fn.__name__} raised {type(ex).__name__}', traceback.format_exc()[-2500:])
+    if changed:
+        unc = tracer.uncovered(changed)
+        res.notes['diff_coverage'] = {'changed_functions': [f'{f}:{q} ({d["what"]}, lines {d["lines"][:8]})' for (f, q), d in changed.items()],
+                                      'uncovered': [f'{f}:{q} {v}' for (f, q), v in unc.items()]}
+        for (f, q), v in unc.items():
+            res.add_broken('correspondence', f'{f}:{q} differs from the tree the model was reconciled with and its changed lines were not executed by any case of this check (diff-coverage)', {'lines': v})
     # ---- verdict
     unknown = []
     known_lines = []
